@@ -172,6 +172,8 @@ pub struct Target<'w> {
 	pub retrying: bool,
 	pub sharable: bool,
 	pub spec: Spec,
+	/// position in the program's target list (set by the caller of build)
+	pub index: usize,
 }
 
 pub struct World<'w> {
@@ -451,7 +453,7 @@ impl<'w> World<'w> {
 				}
 			},
 		};
-		Some(Target { coll, leaves, desc: s.describe(), shape: s.shape_key(), retrying: s.retrying(), sharable: s.sharable(), spec: s.clone() })
+		Some(Target { coll, leaves, desc: s.describe(), shape: s.shape_key(), retrying: s.retrying(), sharable: s.sharable(), spec: s.clone(), index: 0 })
 	}
 }
 
